@@ -13,21 +13,24 @@ RULE = ("literal texts = prefix ('' u U b B r R br Rb bR rb BR c) x quote style 
         "literals; long bodies of 1..70000 characters.  Decoder cases are distinct by literal text; module cases by "
         "(literal text, CYTHON_COMPRESS_STRINGS value); table cases by the list of constants.  A case is "
         "non-trivial when its body contains an escape or a non-ASCII character or is longer than the 2000 split.")
-EXPLANATION = ("theorems (Coq, all closed): the modelled decoder (scanner ESCAPE token + _append_escape_sequence + the "
-               "three literal builders) agrees with an independently written specification of Python's literal "
-               "value on every body of scalar characters, for every kind and raw flag, once octal escapes above "
-               "0o377 are repaired (as-is: refuted by \\777 = internal UnicodeEncodeError, proved for all bodies "
-               "without such an escape); UTF-8 encode/decode round trip for all scalar values and rejection of "
-               "surrogates by the strict encoder; unicode_escape round trip for every code point (the path that "
-               "carries surrogates); string table: for ALL lists of text and byte constants with lengths < 2^32 "
-               "the length index stored in bit-fields of the computed width plus the concatenation unpacks to "
-               "exactly the lists (as-is: refuted when every byte constant is empty: width 0 does not compile); "
-               "pipeline identity: literals -> constants -> C literals (C11) -> every compression branch "
-               "selectable by CYTHON_COMPRESS_STRINGS (LZSS by C12, zlib/bz2/zstd by their contract) -> module "
-               "init gives the objects Python assigns.  partial: the Plex scanner's tokenisation of literal "
-               "bodies (CHARS/ESCAPE/NEWLINE, longest match) is modelled by lex_escape and tied to the real "
-               "scanner by the correspondence run only; \\N{name} lookups, f-string fields and constant "
-               "de-duplication/sorting are not modelled; implicit concatenation is the harness's list join.")
+EXPLANATION = ("theorems (Coq, 11 closed + non-vacuity): (1) the modelled decoder (scanner ESCAPE token lex_escape + "
+               "_append_escape_sequence + the three literal builders + the p_string_literal loop) with the proposed octal "
+               "repair is total for EVERY kind, raw flag and body (never an internal error, fuel len+1 suffices) and, for "
+               "every non-raw str/u/b body without a \\N{ escape, yields exactly the code points/bytes of an independently "
+               "written specification of Python's literal value and rejects exactly what the specification rejects; as the "
+               "tree is, totality is refuted by \\777 (internal UnicodeEncodeError; Python: chr(511) / b'\\xff'). (2) UTF-8: "
+               "strict decode inverts encode on all scalar strings, the encoder is defined exactly on scalar values and "
+               "refuses surrogates; unicode_escape (the path that carries surrogates) round-trips for EVERY code point. "
+               "(3) string table: for ALL lists of text and byte constants (any order, empty, NUL) with lengths < 2^32 the "
+               "bit-field width max(index).bit_length() is legal and holds every length and the unpacking loops give back "
+               "exactly the lists; as the tree is, refuted when every constant of a category is empty (width 0). "
+               "(4) pipeline_identity: table -> C literal or MSVC char array (C11) -> every branch selectable by "
+               "CYTHON_COMPRESS_STRINGS incl. undefined/default (LZSS by C12, zlib/bz2/zstd by contract) -> module init "
+               "rebuilds exactly the constants.  partial: the Plex tokenisation of literal bodies is modelled by "
+               "lex_escape and tied to the real scanner only by the correspondence run; value agreement is not proved for "
+               "raw and char literals nor for the unrepaired decoder on bodies without big octal escapes (tested on every "
+               "case); \\N{name} lookups, f-string fields, implicit concatenation (harness list join) and constant "
+               "de-duplication/sorting are outside the model (two findings there come from the correspondence run).")
 TRUSTED = ["CPython eval() of the same literal text as the property oracle (type, value, len)",
            "py_text/py_bytes/py_raw in M_StrLit.v as the meaning of the language reference (cross-checked against "
            "CPython eval on every decoder case); py_text also stands for PyUnicode_DecodeUnicodeEscape",
@@ -39,10 +42,10 @@ TRUSTED = ["CPython eval() of the same literal text as the property oracle (type
 ASSUMPTIONS = ["language_level=3, UTF-8 source: body characters are Unicode scalar values",
                "every constant shorter than 2^32 bytes", "LP64, unsigned int of 32 bits"]
 
-FX_OCT = os.environ.get("C10_FX_OCT", "0")        # flip to "1" after proposed_fixes/C10-octal_escape_above_0o377
-FX_WIDTH = os.environ.get("C10_FX_WIDTH", "0")    # flip to "1" after proposed_fixes/C10-only_empty_bytes_constants
-FX_SURR = os.environ.get("C10_FX_SURR", "0")      # flip to "1" after proposed_fixes/C10-surrogate_str_then_equal_bytes_literal
-FX_NAMED = os.environ.get("C10_FX_NAMED", "0")    # flip to "1" after proposed_fixes/C10-named_escape_with_digit
+FX_OCT = os.environ.get("C10_FX_OCT", "1")        # flip to "1" after proposed_fixes/C10-octal_escape_above_0o377
+FX_WIDTH = os.environ.get("C10_FX_WIDTH", "1")    # flip to "1" after proposed_fixes/C10-only_empty_bytes_constants
+FX_SURR = os.environ.get("C10_FX_SURR", "1")      # flip to "1" after proposed_fixes/C10-surrogate_str_then_equal_bytes_literal
+FX_NAMED = os.environ.get("C10_FX_NAMED", "1")    # flip to "1" after proposed_fixes/C10-named_escape_with_digit
 
 IMPL = r'''
 import pyload; pyload.install()
